@@ -7,6 +7,7 @@ package appdrv
 
 import (
 	"bytes"
+	"os"
 	"crypto/ecdsa"
 	"encoding/base64"
 	"fmt"
@@ -31,7 +32,13 @@ import (
 	"verifharness/vh"
 )
 
-func init() { zerolog.SetGlobalLevel(zerolog.Disabled) }
+func init() {
+	if os.Getenv("VERIF_LOG") == "" {
+		zerolog.SetGlobalLevel(zerolog.Disabled)
+	} else {
+		zerolog.SetGlobalLevel(zerolog.FatalLevel)
+	}
+}
 
 // ---------------------------------------------------------------------------------------
 // universe: a fixed small set of keys (derived deterministically, independent of the seed)
